@@ -23,12 +23,19 @@ def conc_in(tok):
     return {"truncated": U["u1"][:-4], "garbage": "not-a-uuid-at-all", "empty": ""}[tok]
 
 
-def make(kind, oid):
+def make(kind, oid, named=True):
     if kind == "doc":
         return odml.Document(oid=oid)
     if kind == "sec":
-        return odml.Section(name="alpha", type="t", oid=oid)
-    return odml.Property(name="alpha", values=[1], oid=oid)
+        return odml.Section(name="alpha" if named else None, type="t", oid=oid)
+    return odml.Property(name="alpha" if named else None, values=[1], oid=oid)
+
+
+def nameis(kind, obj):
+    if obj is None or kind == "doc":
+        return "-"
+    n = obj.name
+    return "empty" if n in (None, "") else "given" if n == "alpha" else "id" if n == obj.id else "other"
 
 
 class Tok(object):
@@ -58,7 +65,7 @@ def replay(t):
     try:
         if op == "ctor":
             obj = None
-            obj = make(kind, conc_in(inp))
+            obj = make(kind, conc_in(inp), t.get("named", True))
         else:
             obj.new_id(conc_in(inp))
     except Exception as e:
@@ -68,5 +75,5 @@ def replay(t):
     if op == "ctor":
         prename = postname          # a constructor has no previous name
     yield {"fam": "tree", "src": "model", "op": op, "kind": kind, "in": inp, "out": out, "exc": exc,
-           "pre": pre, "post": post, "prename": prename, "postname": postname,
+           "pre": pre, "post": post, "prename": prename, "postname": postname, "named": t.get("named", True), "nameis": nameis(kind, obj),
            "concrete": repr(conc_in(inp))}
